@@ -77,7 +77,7 @@ func nextClock(class int) {
 		for d <= ns {
 			d *= 10
 		}
-		vtime.Set(now.Truncate(time.Second).Add(time.Duration(d * 2)))
+		vtime.Set(now.Truncate(time.Second).Add(time.Duration(d + 1))) // e.g. 1001 after 110: smaller as a string, larger as a number
 	case 2: // next second, fewer digits
 		vtime.Set(now.Truncate(time.Second).Add(time.Second + 5))
 	default: // continue (+1 ns)
